@@ -18,6 +18,10 @@ from . import c02  # noqa  ArrayType / FixedLengthArrayType / IntegerType / Unsi
 from .names import VALID_NAME, IS_IDENTIFIER, IS_RESERVED
 
 strmodel.enable()
+import os  # noqa: E402
+
+# string obligations: the goal-directed slices drop the regular-expression facts that make them easy; use full queries
+os.environ.setdefault("PYVC_NO_SLICING", "1")
 
 P = ["C05"]
 LEVEL = "proof"
@@ -110,3 +114,421 @@ class _PaddingInit:
 NOT_COVERED = []
 EXPLANATION = ""
 ASSUMPTIONS = []
+
+
+# ================================================================================================ C05-3 aggregation rules
+from pyvc.values import PathK, StrSet, Obj, RefSort, PathV, SymSeq, Kind  # noqa: E402
+from .common import VersionK  # noqa: E402
+
+SER = "pydsdl._serializable."
+ARRAY = SER + "_array.ArrayType"
+VARIABLE = SER + "_array.VariableLengthArrayType"
+STRUCT = SER + "_composite.StructureType"
+UNION = SER + "_composite.UnionType"
+FailureK = Opt(Rec("AggregationFailure", inner=ObjOf(SERIALIZABLE), outer=ObjOf(SERIALIZABLE), message=Str))
+
+
+def _eng():
+    return speclib.CTX.engine
+
+
+def _cid(name):
+    e = _eng()
+    return e.class_id(e.class_by_name(name))
+
+
+def TAG(t):
+    """the dynamic class of an object"""
+    if t.exact:
+        return z3.IntVal(_eng().class_id(t.cls))
+    return _eng().tag_fn(t.ref)
+
+
+def _is(t, name):
+    r = ISINST(t, name)
+    return r
+
+
+def DEPR(t):
+    """Deprecation as the Specification defines it: a composite is deprecated iff it is marked so; an array is
+    deprecated iff its element type is (transitively); primitive and void types never are."""
+    if not smt():
+        return _native_depr(t)
+    e = _eng()
+    if t.fields is not None:  # materialised: the class is known
+        if t.cls.is_subclass_of(e.class_by_name("CompositeType")):
+            return t._deprecated
+        if t.cls.is_subclass_of(e.class_by_name("ArrayType")):
+            return DEPR(t._element_type)
+        return False
+    arr = e.uf("ghost!deprecated-array", RefSort, z3.BoolSort())(t.ref)
+    return ITE(_is(t, "CompositeType"), lambda_val(lambda: AS(t, COMPOSITE)._deprecated), ITE(_is(t, "ArrayType"), arr, False))
+
+
+def lambda_val(f):
+    return f()
+
+
+def INNER_TAG(agg):
+    """the class of agg.inner_type (the wrapped composite of a delimited type, else the object itself)"""
+    e = _eng()
+    if agg.fields is not None:
+        if agg.cls.name == "DelimitedType":
+            return TAG(agg._inner)
+        return TAG(agg)
+    return ITE(_is(agg, "DelimitedType"), e.tag_fn(AS(agg, DELIMITED)._inner.ref), e.tag_fn(agg.ref))
+
+
+def AGG_OK(t, agg):
+    """`t` may be aggregated into `agg` (field of a composite / element of an array).  A ghost predicate of the element
+    type and of what the rules look at in the aggregate: its class, the class of its inner type, its deprecation.
+    Its definition by cases on the class of `t` is RULE below; every override of _check_aggregation is obligated to it."""
+    if not smt():
+        return _native_rule(t, agg)
+    uf = _eng().uf("ghost!agg_ok", RefSort, z3.IntSort(), z3.IntSort(), z3.BoolSort(), z3.BoolSort())
+    d = DEPR(agg)
+    return uf(t.ref, TAG(agg), INNER_TAG(agg), z3.BoolVal(d) if isinstance(d, bool) else d)
+
+
+def BASE_RULE(t, agg):
+    """no use of a deprecated type by a non-deprecated one"""
+    return NOT(AND(DEPR(t), NOT(DEPR(agg))))
+
+
+def _subclass_ids(name):
+    e = _eng()
+    return [e.class_id(c) for c in e.class_by_name(name).all_subclasses()]
+
+
+def TAG_IN(tag, name):
+    return OR(*[tag == i for i in _subclass_ids(name)])
+
+
+def RULE(t, agg):
+    """The Specification's aggregation rules by class of the element type `t` (self of an override: class known)."""
+    if not smt():
+        return _native_rule(t, agg)
+    n = t.cls.name
+    base = BASE_RULE(t, agg)
+    if n == "ByteType":  # byte only as array element
+        return AND(_is(agg, "ArrayType"), base)
+    if n == "UTF8Type":  # utf8 only as element of variable-length arrays
+        return AND(_is(agg, "VariableLengthArrayType"), base)
+    if n == "VoidType":  # void only as structure padding
+        return AND(_is(agg, "CompositeType"), TAG_IN(INNER_TAG(agg), "StructureType"), base)
+    if n in ("FixedLengthArrayType", "VariableLengthArrayType"):  # transitive through arrays
+        return AND(AGG_OK(t._element_type, t), base)
+    if n == "DelimitedType":  # transitive through delimited wrappers
+        return AND(AGG_OK(t._inner, agg), base)
+    return base
+
+
+def _native_depr(t):
+    from pydsdl import _serializable as S
+
+    if isinstance(t, S.CompositeType):
+        return t._deprecated
+    if isinstance(t, S.ArrayType):
+        return _native_depr(t.element_type)
+    return False
+
+
+def _native_rule(t, agg):
+    from pydsdl import _serializable as S
+
+    base = not (_native_depr(t) and not _native_depr(agg))
+    if isinstance(t, S.ByteType):
+        return isinstance(agg, S.ArrayType) and base
+    if isinstance(t, S.UTF8Type):
+        return isinstance(agg, S.VariableLengthArrayType) and base
+    if isinstance(t, S.VoidType):
+        return isinstance(agg, S.CompositeType) and isinstance(agg.inner_type, S.StructureType) and base
+    if isinstance(t, S.ArrayType):
+        return _native_rule(t.element_type, t) and base
+    if isinstance(t, S.DelimitedType):
+        return _native_rule(t.inner_type, agg) and base
+    return base
+
+
+@contract(SERIALIZABLE + ".deprecated@dynamic", props=P)
+class _DeprecatedIface:
+    """Interface contract of the abstract property `deprecated`; the overrides are obligated to it below."""
+    returns = Bool
+    verify = False
+    assumed = "interface contract; each override (PrimitiveType, VoidType, ArrayType, CompositeType) is verified against DEPR"
+
+    def post(s):
+        return {"is-deprecation": IFF(s.result, DEPR(s.self))}
+
+
+@contract(ARRAY + ".deprecated", props=P)
+class _ArrayDeprecated:
+    returns = Bool
+    self_classes = ["FixedLengthArrayType", "VariableLengthArrayType"]
+
+    def post(s):
+        return {"is-deprecation": IFF(s.result, DEPR(s.self))}
+
+
+@contract(SERIALIZABLE + "._check_aggregation@dynamic", props=P)
+class _AggIface:
+    """Interface contract for dynamically dispatched calls: None iff the aggregation is allowed."""
+    params = dict(aggregate=ObjOf(SERIALIZABLE))
+    returns = FailureK
+    verify = False
+    assumed = "interface contract; every override of _check_aggregation is verified against RULE (its definition by cases)"
+
+    def post(s):
+        return {"none-iff-allowed": IFF(IS_NONE(s.result), AGG_OK(s.self, s.aggregate))}
+
+
+@contract(SERIALIZABLE + "._check_aggregation", props=P)
+class _AggBase:
+    """The body of the base class (reached through super() from every override): the deprecation rule."""
+    params = dict(aggregate=ObjOf(SERIALIZABLE))
+    returns = FailureK
+    self_classes = ["BooleanType", "SignedIntegerType", "UnsignedIntegerType", "FloatType", "ByteType", "UTF8Type", "VoidType",
+                    "FixedLengthArrayType", "VariableLengthArrayType", "StructureType", "UnionType", "DelimitedType",
+                    "ServiceType"]
+
+    def post(s):
+        return {"none-iff-not-deprecated-in-non-deprecated": IFF(IS_NONE(s.result), BASE_RULE(s.self, s.aggregate))}
+
+
+def _agg_override(cls_q, classes):
+    @contract(cls_q + "._check_aggregation", props=P)
+    class _AggOverride:
+        params = dict(aggregate=ObjOf(SERIALIZABLE))
+        returns = FailureK
+        self_classes = classes
+
+        def post(s):
+            return {"none-iff-rule": IFF(IS_NONE(s.result), RULE(s.self, s.aggregate))}
+
+    return _AggOverride
+
+
+_agg_override(PRIMITIVE, ["BooleanType", "SignedIntegerType", "UnsignedIntegerType", "FloatType"])
+_agg_override(BYTE_T, ["ByteType"])
+_agg_override(UTF8_T, ["UTF8Type"])
+_agg_override(VOID_T, ["VoidType"])
+_agg_override(ARRAY, ["FixedLengthArrayType", "VariableLengthArrayType"])
+_agg_override(COMPOSITE, ["StructureType", "UnionType", "ServiceType"])
+_agg_override(DELIMITED, ["DelimitedType"])
+
+
+# ================================================================================================ C05-3 CompositeType.__init__
+MAX_NAME_LENGTH = 255        # Specification
+MAX_VERSION = 255
+MAX_SUBJECT_ID = 8191
+MAX_SERVICE_ID = 511
+
+
+def STRIP(name):
+    if smt():
+        return _eng().lib.m_str_strip(speclib.CTX, name)
+    return name.strip()
+
+
+def COMPONENTS(name):
+    """the components of a full name separated by '.'"""
+    if smt():
+        return _eng().lib.split_seq(speclib.CTX, name, ".") if not isinstance(name, str) else name.split(".")
+    return name.split(".")
+
+
+def AS_PATH(p):
+    if smt() and not isinstance(p, PathV):
+        # a path that another specification module keeps as an opaque string
+        return PathV(_eng().uf("path!of-str", z3.StringSort(), PathV(None).__class__ and __import__("pyvc").values.PathSort)(p))
+    return p
+
+
+def UP(path, k):
+    """the k-th ancestor directory of a path"""
+    if smt():
+        from pyvc.values import PathSort
+
+        e = _eng()
+        up = e.uf("path!up", PathSort, z3.IntSort(), PathSort)
+        parent = e.uf("path!parent", PathSort, PathSort)
+        p, kk = z3.Const("p!up", PathSort), z3.Int("k!up")
+        ctx = speclib.CTX
+        ctx.add_axiom(z3.ForAll([p], up(p, 0) == p, patterns=[up(p, 0)]))
+        ctx.add_axiom(z3.ForAll([p, kk], z3.Implies(kk >= 0, z3.And(up(p, kk + 1) == parent(up(p, kk)),
+                                                                  up(parent(p), kk) == up(p, kk + 1))),
+                                patterns=[up(p, kk + 1), up(parent(p), kk)]))
+        return PathV(up(path.term, k if isinstance(k, z3.ExprRef) else z3.IntVal(k)))
+    for _ in range(k):
+        path = path.parent
+    return path
+
+
+def STEM(path):
+    if smt():
+        return _eng().lib.path_attr(speclib.CTX, path, "stem")
+    return path.stem
+
+
+def PARENT(path):
+    if smt():
+        return _eng().lib.path_attr(speclib.CTX, path, "parent")
+    return path.parent
+
+
+def DIRS_SPELL(directory, comps, m):
+    """The last m directories of `directory` spell the first m components: comps[m-1-k] names the k-th ancestor."""
+    if smt():
+        k = z3.FreshConst(z3.IntSort(), "k")
+        m = m if isinstance(m, z3.ExprRef) else z3.IntVal(m)
+        stem_k = STEM(UP(directory, k))
+        return z3.ForAll([k], z3.Implies(z3.And(0 <= k, k < m), AT(comps, m - 1 - k) == stem_k), patterns=[stem_k])
+    return all(comps[m - 1 - k] == UP(directory, k).stem for k in range(m))
+
+
+def NS_COUNT(comps, has_parent_service):
+    """number of namespace components that name directories: all but the short name (and but the service's own name
+    for the request / response part of a service, which lives in the service's file)"""
+    return LEN(comps) - ITE(has_parent_service, 2, 1)
+
+
+def NAME_COLLISION(attrs):
+    """two attributes share a non-empty name"""
+    return EXISTS_IDX(attrs, lambda q, b: AND(NOT(EQ(b._name, "")), EXISTS_IDX(attrs, lambda p, a: EQ(a._name, b._name), hi=q,
+                                                                                  name="p")), name="q")
+
+
+def _attr_seq(s):
+    return s.attributes
+
+
+@contract(COMPOSITE + ".__init__.search_up_for_root", props=["C05", "C15"])
+class _SearchUp:
+    """Nested function of CompositeType.__init__: walks up the directories while they spell the namespace."""
+    params = dict(path=PathK, namespace_components=SeqOf(Str))
+    returns = PathK
+    raises = {"InvalidNameError": lambda s: NOT(DIRS_SPELL(s.path, s.namespace_components, LEN(s.namespace_components)))}
+
+    def pre(s):
+        return {"at-least-one-component": LEN(s.namespace_components) >= 1}
+
+    def post(s):
+        return {"root-directory": EQ(s.result, UP(s.path, LEN(s.namespace_components) - 1))}
+
+
+@contract(COMPOSITE + ".__init__", props=P)
+class _CompositeInit:
+    """Replaces the placeholder of specs/c02.py.  Every rule of the statement that CompositeType.__init__ enforces, each
+    two-sided; the order in which the rules are tested is not part of the contract."""
+    params = dict(name=Str, version=VersionK, attributes=SeqOf(ObjOf(ATTRIBUTE)), deprecated=Bool, fixed_port_id=Opt(Int),
+                  source_file_path=PathK, has_parent_service=Bool, doc=Str)
+    self_classes = ["StructureType", "UnionType", "DelimitedType", "ServiceType"]
+    instances = [{"self._inner": ObjOf(COMPOSITE)}]  # DelimitedType assigns _inner before delegating to this constructor
+    # the layout invariant of specs/c02.py is about the complete object (its _bls is assigned by the subclass constructor)
+    inv_exempt = ["SerializableType.*"]  # DelimitedType assigns _inner before delegating to this constructor
+
+    def pre(s):
+        n = STRIP(s.name)
+        return {
+            # the request / response part of a service is named <namespace>.<Service>.Request: three components at least
+            "service-part-name": IMPLIES(s.has_parent_service, LEN(COMPONENTS(n)) >= 3),
+        }
+
+    raises = {
+        "InvalidNameError": lambda s: _CompositeInit.bad_name(s),
+        "InvalidVersionError": lambda s: NOT(AND(0 <= s.version.major, s.version.major <= MAX_VERSION,
+                                                 0 <= s.version.minor, s.version.minor <= MAX_VERSION,
+                                                 NOT(AND(s.version.major == 0, s.version.minor == 0)))),
+        "AttributeNameCollisionError": lambda s: NAME_COLLISION(s.attributes),
+        "InvalidFixedPortIDError": lambda s: AND(NOT(IS_NONE(s.fixed_port_id)), lambda: NOT(AND(
+            0 <= VAL(s.fixed_port_id),
+            VAL(s.fixed_port_id) <= ITE(ISINST(s.self, "ServiceType"), MAX_SERVICE_ID, MAX_SUBJECT_ID)))),
+        "AggregationError": lambda s: EXISTS_IDX(s.attributes, lambda i, a: NOT(AGG_OK(a._data_type, s.self))),
+    }
+
+    @staticmethod
+    def bad_name(s):
+        n = STRIP(s.name)
+        comps = COMPONENTS(n)
+        if smt():
+            ln, dot = z3.Length(n), z3.Contains(n, z3.StringVal("."))
+        else:
+            ln, dot = len(n), "." in n
+        return OR(ln == 0, NOT(dot), ln > MAX_NAME_LENGTH,
+                  EXISTS_IDX(comps, lambda i, c: NOT(VALID_NAME(c))),
+                  lambda: NOT(DIRS_SPELL(PARENT(AS_PATH(s.source_file_path)), comps, NS_COUNT(comps, s.has_parent_service))))
+
+    def post(s):
+        return {
+            "attributes-stored": _same_seq(s.self._attributes, s.attributes),
+            "name-stored": EQ(s.self._name, STRIP(s.name)),
+            "version-stored": EQ(s.self._version, s.version),
+            "port-id-stored": EQ(s.self._fixed_port_id, s.fixed_port_id),
+            "deprecated-stored": IFF(s.self._deprecated, s.deprecated),
+        }
+
+
+def _same_seq(a, b):
+    if smt():
+        return AND(LEN(a) == LEN(b), FORALL_IDX(a, lambda i, x: x.ref == AT(b, i).ref))
+    return len(a) == len(b) and all(x is y for x, y in zip(a, b))
+
+
+@loop_invariant(COMPOSITE + ".__init__", loop=1)
+def _inv_unique_names(s):
+    """attribute-name uniqueness loop: used_names is the set of names of the attributes seen; no collision among them"""
+    attrs = s.seq
+    used = s.used_names
+    if used.elem_sort != z3.StringSort():  # the `set()` literal before the first add
+        used_has = lambda x: z3.BoolVal(False)
+    else:
+        used_has = lambda x: z3.Select(used.term, x)
+    x = z3.FreshConst(z3.StringSort(), "x")
+    k = z3.FreshConst(z3.IntSort(), "k")
+    name_at = lambda j: AT(attrs, j)._name
+    return {
+        "seen-names-are-used": FORALL_IDX(attrs, lambda p, a: used_has(a._name), hi=s.i, name="p"),
+        "used-names-were-seen": z3.ForAll([x], z3.Implies(used_has(x), z3.Exists([k], z3.And(0 <= k, k < s.i, name_at(k) == x)))),
+        "no-collision-so-far": FORALL_IDX(attrs, lambda q, b: NOT(AND(NOT(EQ(b._name, "")), EXISTS_IDX(
+            attrs, lambda p, a: EQ(a._name, b._name), hi=q, name="p"))), hi=s.i, name="q"),
+    }
+
+
+_inv_unique_names.kinds = {"used_names": StrSet}
+
+
+# ================================================================================================ native extra check
+def _check_service_field(eng, tier, seed):
+    """Every rejection is an InvalidDefinitionError: a composite whose field has a service type (not serializable) must
+    be rejected by the static rules, not crash in the layout computation.  Native, concrete (not counted as proof)."""
+    from pathlib import Path
+    from pydsdl import _serializable as S
+    from pydsdl._error import InvalidDefinitionError
+
+    u8 = S.UnsignedIntegerType(8, S.PrimitiveType.CastMode.SATURATED)
+
+    def part(n):
+        return S.StructureType(name="ns.Svc." + n, version=S.Version(1, 0), attributes=[S.Field(u8, "a")], deprecated=False,
+                               fixed_port_id=None, source_file_path=Path("ns/Svc.1.0.dsdl"), has_parent_service=True)
+
+    svc = S.ServiceType(part("Request"), part("Response"), None)
+    out = {"name": "service type as field type", "violations": []}
+    try:
+        S.StructureType(name="ns.Msg", version=S.Version(1, 0), attributes=[S.Field(svc, "x")], deprecated=False,
+                        fixed_port_id=None, source_file_path=Path("ns/Msg.1.0.dsdl"), has_parent_service=False)
+        observed = "accepted"
+    except InvalidDefinitionError as ex:
+        observed = "rejected: %s" % type(ex).__name__
+    except Exception as ex:  # noqa
+        observed = "crashed: %s: %s" % (type(ex).__name__, ex)
+        out["violations"].append({
+            "name": "_composite.CompositeType.__init__/native#non-serializable-field-rejected-by-a-rule",
+            "detail": "Field(<ServiceType ns.Svc.1.0>, 'x') passes every check of CompositeType.__init__ and the "
+                      "constructor of the structure then raises %s" % type(ex).__name__,
+            "concrete": {"function": "pydsdl._serializable._composite.StructureType.__init__",
+                         "input": "StructureType('ns.Msg', 1.0, [Field(ServiceType(ns.Svc.1.0), 'x')])", "observed": observed}})
+    out["observed"] = observed
+    return out
+
+
+EXTRA_CHECKS = [_check_service_field]
